@@ -20,29 +20,30 @@ Qed.
 Lemma firstn_app_ge {A} n (a b : list A) : (length a <= n)%nat -> firstn n (a ++ b) = a ++ firstn (n - length a) b.
 Proof. intros H. rewrite firstn_app, firstn_all2 by exact H. reflexivity. Qed.
 
-(* ---------- writeDelimitedMessageRaw on a failing writer ---------- *)
+(* ---------- writeDelimitedMessageRaw on a failing writer ----------
+   h = what the writer does after its failure: false keeps failing, true accepts everything again. *)
 Definition room_after (room : option nat) (n : nat) : option nat :=
   match room with None => None | Some r => Some (r - n)%nat end.
 
-Lemma sink_write_fits p out room :
+Lemma sink_write_fits p out room h :
   match room with None => True | Some r => (length p <= r)%nat end ->
-  sink_write p (mk_sink out room) = WOk (mk_sink (out ++ p) (room_after room (length p))).
+  sink_write p (mk_sink out room h) = WOk (mk_sink (out ++ p) (room_after room (length p)) h).
 Proof.
-  intros H. unfold sink_write. cbn [k_room k_out]. destruct room as [r|]; [|reflexivity].
+  intros H. unfold sink_write. cbn [k_room k_out k_heals]. destruct room as [r|]; [|reflexivity].
   now replace (length p <=? r)%nat with true by (symmetry; apply Nat.leb_le; lia).
 Qed.
 
-Lemma sink_write_short p out r :
+Lemma sink_write_short p out r h :
   (r < length p)%nat ->
-  sink_write p (mk_sink out (Some r)) = WErr (mk_sink (out ++ firstn r p) (Some 0%nat)).
+  sink_write p (mk_sink out (Some r) h) = WErr (mk_sink (out ++ firstn r p) (after_failure h) h).
 Proof.
-  intros H. unfold sink_write. cbn [k_room k_out].
+  intros H. unfold sink_write. cbn [k_room k_out k_heals].
   now replace (length p <=? r)%nat with false by (symmetry; apply Nat.leb_gt; lia).
 Qed.
 
-Lemma write_delimited_fits m out room :
+Lemma write_delimited_fits m out room h :
   match room with None => True | Some r => (length (write_msg m) <= r)%nat end ->
-  write_delimited m (mk_sink out room) = WOk (mk_sink (out ++ write_msg m) (room_after room (length (write_msg m)))).
+  write_delimited m (mk_sink out room h) = WOk (mk_sink (out ++ write_msg m) (room_after room (length (write_msg m))) h).
 Proof.
   intros H. unfold write_delimited. rewrite write_msg_length in *.
   rewrite sink_write_fits by (destruct room; [rewrite be32_length; lia|exact Logic.I]).
@@ -51,9 +52,12 @@ Proof.
   destruct room; cbn [room_after]; [f_equal; lia|reflexivity].
 Qed.
 
-Lemma write_delimited_short m out r :
+(* the failing call: whether the prefix Write or the data Write fails, what is on the wire is the
+   first r bytes of the frame and NOTHING behind them - in particular the data is not written
+   after a failed prefix, although a writer that heals would have taken it *)
+Lemma write_delimited_short m out r h :
   (r < length (write_msg m))%nat ->
-  write_delimited m (mk_sink out (Some r)) = WErr (mk_sink (out ++ firstn r (write_msg m)) (Some 0%nat)).
+  write_delimited m (mk_sink out (Some r) h) = WErr (mk_sink (out ++ firstn r (write_msg m)) (after_failure h) h).
 Proof.
   intros H. rewrite write_msg_length in H. unfold write_delimited, write_msg.
   destruct (Nat.le_gt_cases 4 r) as [H4|H4].
@@ -68,14 +72,14 @@ Qed.
 Definition failed_spec (room : option nat) (total : nat) : bool :=
   match room with None => false | Some r => (r <? total)%nat end.
 
-Lemma write_stream_spec : forall ms out room n failed k,
-  write_stream write_delimited ms (mk_sink out room) = (n, failed, k) ->
+Lemma write_stream_spec : forall h ms out room n failed k,
+  write_stream write_delimited ms (mk_sink out room h) = (n, failed, k) ->
   k_out k = out ++ wire_spec ms room /\
   failed = failed_spec room (length (write_all ms)) /\
   (n <= length ms)%nat /\ (failed = false -> n = length ms) /\
   match room with None => True | Some r => (length (write_all (firstn n ms)) <= r)%nat end.
 Proof.
-  induction ms as [|m ms IH]; intros out room n failed k E.
+  intros h. induction ms as [|m ms IH]; intros out room n failed k E.
   - cbn in E. inversion E; subst. unfold wire_spec, cut_to, failed_spec. cbn.
     destruct room as [r|]; cbn; rewrite ?firstn_nil, ?app_nil_r; repeat split; lia.
   - cbn [write_stream] in E.
@@ -101,19 +105,23 @@ Proof.
       symmetry. apply Nat.ltb_lt. lia.
 Qed.
 
-Lemma writer_wire_proof : forall ms room, wire_of write_delimited ms room = wire_spec ms room.
+(* for BOTH kinds of writer *)
+Lemma writer_wire_h_proof : forall h ms room, wire_of_h h write_delimited ms room = wire_spec ms room.
 Proof.
-  intros ms room. unfold wire_of, sink_of.
-  destruct (write_stream write_delimited ms (mk_sink [] room)) as [[n f] k] eqn:E.
+  intros h ms room. unfold wire_of_h, sink_of_h.
+  destruct (write_stream write_delimited ms (mk_sink [] room h)) as [[n f] k] eqn:E.
   apply write_stream_spec in E as (Ho & _). cbn [snd]. exact Ho.
 Qed.
 
-Lemma writer_reports_proof : forall ms room n failed k,
-  write_stream write_delimited ms (sink_of room) = (n, failed, k) ->
+Lemma writer_wire_proof : forall ms room, wire_of write_delimited ms room = wire_spec ms room.
+Proof. intros ms room. apply writer_wire_h_proof. Qed.
+
+Lemma writer_reports_proof : forall h ms room n failed k,
+  write_stream write_delimited ms (sink_of_h h room) = (n, failed, k) ->
   failed = failed_spec room (length (write_all ms)) /\
   (n <= length ms)%nat /\ (failed = false -> n = length ms) /\
   match room with None => True | Some r => (length (write_all (firstn n ms)) <= r)%nat end.
-Proof. intros ms room n failed k E. apply write_stream_spec in E. tauto. Qed.
+Proof. intros h ms room n failed k E. apply write_stream_spec in E. tauto. Qed.
 
 (* ---------- a cut of a proper stream: whole frames, then j bytes of the next one ---------- *)
 Lemma cut_decompose : forall ms r, (r < length (write_all ms))%nat ->
@@ -229,9 +237,13 @@ Qed.
 Lemma json_write_all_cons v vs : json_write_all (v :: vs) = v ++ 10 :: json_write_all vs.
 Proof. unfold json_write_all. cbn [map concat]. unfold json_write. now rewrite <- app_assoc. Qed.
 
+(* The JSON encoder is stated for the writer that keeps failing (h = false).  It is NOT true of a
+   writer that heals: the error of the newline Write is dropped by the code, so when exactly the
+   newline did not fit the next Encode carries on and the wire is v1 v2 newline ... (still a
+   sequence of complete values, but not a prefix of the proper stream). *)
 Lemma json_encode_fits v out room :
   match room with None => True | Some r => (length v + 1 <= r)%nat end ->
-  json_encode v (mk_sink out room) = WOk (mk_sink (out ++ v ++ [10]) (room_after room (length v + 1))).
+  json_encode v (mk_sink out room false) = WOk (mk_sink (out ++ v ++ [10]) (room_after room (length v + 1)) false).
 Proof.
   intros H. unfold json_encode.
   rewrite sink_write_fits by (destruct room; [lia|exact Logic.I]).
@@ -240,19 +252,19 @@ Proof.
 Qed.
 
 Lemma json_encode_no_newline v out r :
-  length v = r -> json_encode v (mk_sink out (Some r)) = WOk (mk_sink (out ++ v) (Some 0%nat)).
+  length v = r -> json_encode v (mk_sink out (Some r) false) = WOk (mk_sink (out ++ v) (Some 0%nat) false).
 Proof.
   intros H. unfold json_encode. rewrite sink_write_fits by lia. cbn [room_after].
   rewrite sink_write_short by (cbn [length]; lia).
-  replace (r - length v)%nat with 0%nat by lia. cbn [firstn]. now rewrite app_nil_r.
+  replace (r - length v)%nat with 0%nat by lia. cbn [firstn after_failure]. now rewrite app_nil_r.
 Qed.
 
 Lemma json_encode_short v out r :
-  (r < length v)%nat -> json_encode v (mk_sink out (Some r)) = WErr (mk_sink (out ++ firstn r v) (Some 0%nat)).
+  (r < length v)%nat -> json_encode v (mk_sink out (Some r) false) = WErr (mk_sink (out ++ firstn r v) (Some 0%nat) false).
 Proof. intros H. unfold json_encode. now rewrite sink_write_short by exact H. Qed.
 
 Lemma json_stream_spec : forall vs out room n failed k,
-  write_stream json_encode vs (mk_sink out room) = (n, failed, k) ->
+  write_stream json_encode vs (mk_sink out room false) = (n, failed, k) ->
   k_out k = out ++ json_wire_spec vs room /\
   (room = None -> failed = false /\ n = length vs).
 Proof.
@@ -282,8 +294,8 @@ Qed.
 
 Lemma json_writer_wire_proof : forall vs room, wire_of json_encode vs room = json_wire_spec vs room.
 Proof.
-  intros vs room. unfold wire_of, sink_of.
-  destruct (write_stream json_encode vs (mk_sink [] room)) as [[n f] k] eqn:E.
+  intros vs room. unfold wire_of, wire_of_h, sink_of_h.
+  destruct (write_stream json_encode vs (mk_sink [] room false)) as [[n f] k] eqn:E.
   apply json_stream_spec in E as (Ho & _). exact Ho.
 Qed.
 
